@@ -245,6 +245,11 @@ BadFields(r) ==
 AllowedOutcomes == {"error", "value"}      \* value = decoded and re-encodable
 BadOutcome(o) == o \notin AllowedOutcomes
 
+\* the structural malformations every decoder has to be shown (the driver applies them to real encodings at
+\* every offset / field); a run that exercises fewer classes is an infrastructure failure, not a pass
+CorruptionClasses == {"truncate", "byte", "oversize-or-insert", "field-wrong-type", "invalid-cid-peer-multiaddr-utf8",
+                      "enum-out-of-range", "non-utf8", "deep-nesting", "random-bytes", "random-mutation"}
+
 (***************************************************************************)
 (* Laws of the projection itself (checked exhaustively by CodecMC).        *)
 (***************************************************************************)
